@@ -84,3 +84,55 @@ Proof.
   exists (Some KTable), (Some KDesc). reflexivity.
 Qed.
 Print Assumptions C07_pinned_sites_refuted.
+
+(* ---- sites found after the first round (strengthening / deepening) ---- *)
+
+(* C07_no_panic_later_sites_partial: for all arguments, no Panic from
+   - the outermost LIMIT expression (after fix c96f03c: any set of column references, any static type);
+   - JSON getOctoSQLValue against any list type, including the type of the empty list at any nesting depth (after C24's fix);
+   and, as the shape a repair must have (these three are still open on main, see C07_later_pinned_sites_refuted):
+   - a join's per-row event-time list under any sequence of insertions and retractions;
+   - COALESCE layout mapping for any tuple lengths;  - string repetition under any memory bound. *)
+Theorem C07_no_panic_later_sites_partial :
+  (forall cols e, is_panic (limit_eval cols e) = false) /\
+  (forall v t, is_panic (get_value false t v) = false) /\
+  (forall ops times, is_panic (join_row_history false times ops) = false) /\
+  (forall n l, is_panic (coalesce_mapping n l) = false) /\
+  (forall mem len count, is_panic (repeat_alloc mem len count) = false).
+Proof.
+  exact (conj limit_eval_no_panic (conj get_value_no_panic (conj join_row_history_no_panic
+        (conj coalesce_mapping_no_panic repeat_alloc_no_panic)))).
+Qed.
+Print Assumptions C07_no_panic_later_sites_partial.
+
+(* a LIMIT expression that is accepted references no column and is an Int *)
+Theorem C07_limit_accepts_only_constant_int : forall cols e b,
+  limit_eval cols e = Ok b -> lvars e = [] /\ lint e = true.
+Proof. exact limit_eval_ok. Qed.
+Print Assumptions C07_limit_accepts_only_constant_int.
+
+(* the join code on main panics exactly on row histories in which some prefix retracts more often than it inserts
+   (a retraction that is processed before its insertion): a valid changelog processed in arrival order never does *)
+Theorem C07_join_retraction_pinned_characterised : forall ops times,
+  is_panic (join_row_history true times ops) = negb (balance_ok (length times) ops).
+Proof. exact join_row_history_pinned_spec. Qed.
+Print Assumptions C07_join_retraction_pinned_characterised.
+
+(* witnesses: LIMIT <column>; a non-empty array against the type of the empty list, also one level down; +row, -row,
+   -row into a join; COALESCE((1,2),(1,2,3)); 'a' * MaxInt64 with 2^48 bytes of address space.
+   The first two are repaired on main (c96f03c, C24's fix); the last three are finding classes
+   c18-join-retraction-unmatched, c13-fixlayout (C13: coalesce-tuple-length), c13-repeat (C13: repeat-beyond-memory). *)
+Theorem C07_later_pinned_sites_refuted :
+  (exists cols e, is_panic (limit_eval_pinned cols e) = true) /\
+  (exists t v, is_panic (get_value true t v) = true) /\
+  (exists ops, is_panic (join_row_history true [] ops) = true) /\
+  (exists n l, is_panic (coalesce_mapping_pinned n l) = true) /\
+  (exists mem len count, is_panic (repeat_alloc_pinned mem len count) = true).
+Proof.
+  split; [exists [1; 2], (mklim [2] true); reflexivity|].
+  split; [exists (JList (Some (JList None))), (JArr [JArr []; JArr [JScalar]]); reflexivity|].
+  split; [exists [false; true; true]; reflexivity|].
+  split; [exists 3%nat, [2%nat; 3%nat]; reflexivity|].
+  exists 281474976710656, 1, 9223372036854775807. reflexivity.
+Qed.
+Print Assumptions C07_later_pinned_sites_refuted.
